@@ -560,6 +560,9 @@ def run(model, col, tier):
                 and _rt(c.args[0], r_env) == f"{fp}.GetType().GetName()" and _rt(c.func.value, r_env) == f"{cp_}[-1]"]
         col.check(bool(resolves) and bool(regs) and min(c.lineno for c in resolves) < min(c.lineno for c in regs), "R10.3", f"{CT}::__RegisterFunction", "parameter types are resolved, then the function is registered under its name", None, CT, reg[1])
     pe = ctv.own_method("_ProcessExpression")
+    from ..sem import expand_helpers as _xh103
+
+    pe = _xh103(model, ctv, pe)
     ep_, sp_ = pe.args.args[1].arg, pe.args.args[2].arg
     typed_first = None
     for evs_, st_ in paths(pe.body):
